@@ -1,6 +1,7 @@
 package c09
 
 import (
+	"bytes"
 	"context"
 	"encoding/xml"
 	"errors"
@@ -311,22 +312,33 @@ type helper struct {
 
 // helperCase runs h against a peer that answers the first IQ request with
 // <iq type=typ id=…>reply</iq>.
+// errorPageMark in front of a page makes the peer send that page as an error reply.
+const errorPageMark = "\x00E"
+
 func helperCase(h *helper, typ string, reply []byte) outcome {
+	return helperPages(h, typ, [][]byte{reply})
+}
+
+// helperPages runs h against a peer that answers the k-th IQ request with pages[k] (the last
+// page again for later requests, up to maxReplies requests in all; after that item-not-found:
+// a paging helper may go on for ever against a peer that always announces another page).
+//
+// The helper's context has no deadline: a helper (or Serve) that waits for ever must be seen
+// by the watchdog, not rescued by a timeout.  The context is cancelled only when Serve has
+// ended, after which the helper has to return.
+func helperPages(h *helper, typ string, pages [][]byte) outcome {
 	fx, err := newFixture(nil)
 	if err != nil {
 		return outcome{panicMsg: "harness: " + err.Error()}
 	}
-	ctx, cancel := context.WithTimeout(context.Background(), 400*time.Millisecond)
+	ctx, cancel := context.WithCancel(context.Background())
 	defer cancel()
 	res := make(chan outcome, 1)
 	go func() { res <- guard(func() { h.call(ctx, fx.rs.S) }) }()
-	// scripted peer: every IQ request the helper sends is answered with the same id; the
-	// first maxReplies ones with the scripted reply, later ones (paging helpers may go on
-	// for ever against a peer that always announces another page) with item-not-found
 	stop := make(chan struct{})
 	defer close(stop)
 	go func() {
-		const maxReplies = 3
+		const maxReplies = 4
 		answered := 0
 		for {
 			select {
@@ -340,11 +352,20 @@ func helperCase(h *helper, typ string, reply []byte) outcome {
 				continue
 			}
 			id := string(ms[answered][1])
+			page := pages[len(pages)-1]
+			if answered < len(pages) {
+				page = pages[answered]
+			}
 			answered++
 			var b strings.Builder
 			if answered <= maxReplies {
-				fmt.Fprintf(&b, `<iq xmlns="jabber:client" type="%s" id="%s" from="example.net">`, typ, esc(id))
-				b.Write(reply)
+				ptyp := typ
+				if bytes.HasPrefix(page, []byte(errorPageMark)) {
+					// this page is an error reply
+					ptyp, page = "error", page[len(errorPageMark):]
+				}
+				fmt.Fprintf(&b, `<iq xmlns="jabber:client" type="%s" id="%s" from="example.net">`, ptyp, esc(id))
+				b.Write(page)
 			} else {
 				fmt.Fprintf(&b, `<iq xmlns="jabber:client" type="error" id="%s" from="example.net">`, esc(id))
 				b.WriteString(errPayload)
@@ -359,11 +380,13 @@ func helperCase(h *helper, typ string, reply []byte) outcome {
 	select {
 	case o = <-res:
 	case so := <-fx.done:
-		// Serve ended first (malformed reply): the helper must still return
+		// Serve ended first (malformed reply): the helper must return once its context is
+		// cancelled
+		cancel()
 		select {
 		case o = <-res:
 		case <-time.After(wd()):
-			return outcome{stalled: true, where: "the helper did not return although Serve had ended"}
+			return outcome{stalled: true, where: "the helper did not return although Serve had ended and its context was cancelled"}
 		}
 		if so.panicMsg != "" {
 			return so
@@ -371,6 +394,7 @@ func helperCase(h *helper, typ string, reply []byte) outcome {
 		fx.done <- so
 	case <-time.After(wd()):
 		_ = fx.rs.In.Close()
+		cancel()
 		return outcome{stalled: true, where: "neither the helper nor Serve returned"}
 	}
 	if o.panicMsg != "" {
@@ -512,6 +536,66 @@ var helpers = []*helper{
 		}},
 }
 
+// cmdForEach: an ad-hoc command conversation through Command.ForEach; the callback answers
+// every step with the given action.
+func cmdForEach(action string) func(ctx context.Context, s *xmpp.Session) {
+	return func(ctx context.Context, s *xmpp.Session) {
+		steps := 0
+		_ = commands.Command{JID: remote, Node: "list"}.ForEach(ctx, nil, s, func(r commands.Response, p xml.TokenReader) (commands.Command, xml.TokenReader, error) {
+			steps++
+			if action != "nodrain" {
+				drain(p)
+			}
+			if steps > 6 {
+				return r.Cancel(), nil, nil
+			}
+			switch action {
+			case "cancel":
+				return r.Cancel(), nil, nil
+			case "complete":
+				return r.Complete(), nil, nil
+			case "prev":
+				return r.Prev(), nil, nil
+			case "err":
+				return commands.Command{}, nil, errors.New("application error in the callback")
+			case "stop":
+				return commands.Command{}, nil, nil
+			}
+			return r.Next(), nil, nil
+		})
+	}
+}
+
+// cmdExecuteChain: the same conversation step by step through Execute.
+func cmdExecuteChain(ctx context.Context, s *xmpp.Session) {
+	c := commands.Command{JID: remote, Node: "list"}
+	for i := 0; i < 4; i++ {
+		resp, r, err := c.Execute(ctx, nil, s)
+		if err != nil {
+			return
+		}
+		if r != nil {
+			drain(r)
+			_ = r.Close()
+		}
+		if resp.Status != "executing" {
+			return
+		}
+		if i == 2 {
+			c = resp.Cancel()
+		} else {
+			c = resp.Next()
+		}
+	}
+}
+
+func init() {
+	for _, a := range []string{"next", "cancel", "complete", "prev", "err", "stop", "nodrain"} {
+		helpers = append(helpers, &helper{name: "commands.ForEach." + a, templates: []string{``}, call: cmdForEach(a)})
+	}
+	helpers = append(helpers, &helper{name: "commands.ExecuteChain", templates: []string{``}, call: cmdExecuteChain})
+}
+
 const errPayload = `<error type="cancel"><item-not-found xmlns="urn:ietf:params:xml:ns:xmpp-stanzas"/><text xmlns="urn:ietf:params:xml:ns:xmpp-stanzas" xml:lang="en">gone</text></error>`
 
 // stanzaTemplates: canonical stanzas for every handler on the mux (one sequence per entry;
@@ -611,7 +695,7 @@ func (c *ctx) record(line string, o outcome, class string) {
 		switch f[0] {
 		case "servex":
 			key = "stall:servex:" + f[1]
-		case "helper":
+		case "helper", "helperp":
 			if n, err := common.UnHex(f[1]); err == nil {
 				key = "stall:helper:" + string(n)
 			}
@@ -698,6 +782,25 @@ func (c *ctx) helper(h *helper, typ, reply, class string) {
 	c.record("helper "+common.HexS(h.name)+" "+typ+" "+common.HexS(reply), o, class)
 }
 
+// helperp: a helper against a peer that answers successive requests with successive pages.
+func (c *ctx) helperp(h *helper, typ string, pages []string, class string) {
+	var hx []string
+	var bs [][]byte
+	for _, p := range pages {
+		hx = append(hx, common.HexS(p))
+		bs = append(bs, []byte(p))
+	}
+	line := "helperp " + common.HexS(h.name) + " " + typ + " " + strings.Join(hx, ";")
+	if c.stalls[h.name] >= maxStalls || !c.begin(line) {
+		return
+	}
+	o := retryStalled(func() outcome { return helperPages(h, typ, bs) })
+	if o.stalled {
+		c.stalls[h.name]++
+	}
+	c.record(line, o, class)
+}
+
 func helperByName(n string) *helper {
 	for _, h := range helpers {
 		if h.name == n {
@@ -724,6 +827,24 @@ func (c *ctx) replay(lines []string) error {
 				return err
 			}
 			c.serve(string(b), "replay")
+		case "helperp":
+			if len(f) != 5 {
+				return fmt.Errorf("bad replay line %q", l)
+			}
+			n, err1 := common.UnHex(f[2])
+			h := helperByName(string(n))
+			if err1 != nil || h == nil {
+				return fmt.Errorf("bad replay line %q", l)
+			}
+			var pages []string
+			for _, hx := range strings.Split(f[4], ";") {
+				b, err := common.UnHex(hx)
+				if err != nil {
+					return err
+				}
+				pages = append(pages, string(b))
+			}
+			c.helperp(h, f[3], pages, "replay")
 		case "servex":
 			if len(f) != 5 {
 				return fmt.Errorf("bad replay line %q", l)
